@@ -5,6 +5,8 @@
 -/
 import LDEval.Wire
 import LDEval.Spec.WellFormed
+import LDEval.Spec.Schema
+import LDEval.Model.SoftF64
 
 open Lean LD LD.Wire
 
@@ -46,6 +48,13 @@ def bytesOfHex (s : String) : List UInt8 :=
   go s.toList
 
 def optTimeOut : Option Int → Json | none => Json.null | some t => Json.str (toString t)
+
+/-- Canonical form of an encoded document: members sorted by key, numbers at float64 precision. -/
+partial def canonTree : J → J
+  | .num q => .num (SoftF64.rnd q)
+  | .arr xs => .arr (xs.map canonTree)
+  | .obj kvs => .obj ((kvs.map fun kv => (kv.1, canonTree kv.2)).toArray.qsort (fun a b => a.1 < b.1)).toList
+  | v => v
 
 def semverOut : Option SemVer → Json
   | none => Json.null
@@ -118,6 +127,24 @@ def handle (j : Json) : Except String Json := do
   else if kind == "presegment" then
     let s ← segment (← fld j "segment")
     return Json.mkObj [("out", segmentOut (preprocessSegment rx s))]
+  else if kind == "decflag" then
+    match Codec.decodeFlag rx (← jval (fldD j "doc")) with
+    | .ok f => return Json.mkObj [("out", Json.mkObj [("ok", true), ("flag", flagOut f)])]
+    | .error _ => return Json.mkObj [("out", Json.mkObj [("ok", false), ("flag", Json.null)])]
+  else if kind == "decseg" then
+    match Codec.decodeSegment rx (← jval (fldD j "doc")) with
+    | .ok s => return Json.mkObj [("out", Json.mkObj [("ok", true), ("segment", segmentOut s)])]
+    | .error _ => return Json.mkObj [("out", Json.mkObj [("ok", false), ("segment", Json.null)])]
+  else if kind == "encflag" then
+    let f ← flag (← fld j "flag")
+    let goTree ← jval (fldD j "goTree")
+    return Json.mkObj [("out", Json.mkObj [("tree", jvalOut (canonTree (Codec.encodeFlag f)))]),
+      ("pred", Json.mkObj [("schema", Schema.flagOK goTree), ("modelSchema", Schema.flagOK (Codec.encodeFlag f))])]
+  else if kind == "encseg" then
+    let s ← segment (← fld j "segment")
+    let goTree ← jval (fldD j "goTree")
+    return Json.mkObj [("out", Json.mkObj [("tree", jvalOut (canonTree (Codec.encodeSegment s)))]),
+      ("pred", Json.mkObj [("schema", Schema.segmentOK goTree), ("modelSchema", Schema.segmentOK (Codec.encodeSegment s))])]
   else throw s!"unknown kind {kind}"
 
 partial def loop (inp : IO.FS.Stream) (out : IO.FS.Stream) : IO Unit := do
